@@ -148,10 +148,30 @@ def check_ingestion(W, prop, ty, k):
         res.update(verdict="inconclusive", reason="no from_iter/extend implementation found for %s" % ty)
     elif problems:
         res.update(verdict="violated", reason="; ".join(problems[:4]))
-        res["_replay"] = None
+        res["_replay"] = (ingest_replay(ty, k, pair), {})
     else:
         res.update(verdict="proved")
     W.results.append(res)
+
+
+PROBE = [0.1, 0.7, 1000000000.3, -2.5e-3, 3.0]
+PROBE_W = [0.3, 1.7, 2.1, 0.0, 5.5]
+
+
+def ingest_replay(ty, k, pair):
+    """native confirmation of an ingestion-path difference: the add loop, both collects and both extends after every
+    prefix length are run on fixed non-dyadic probe data; all final states must be bit-identical"""
+    from .replay import f2w
+
+    def build(vals):
+        items = ["%s%s" % (f2w(PROBE[j]), (" " + f2w(PROBE_W[j])) if pair else "") for j in range(k)]
+        program = ["new " + ty] + ["add " + it for it in items] + ["dump"]
+        for how in ("val", "ref"):
+            program += ["collect_%s %s %s" % (how, ty, " ".join(items)), "dump"]
+            for cut in range(k + 1):
+                program += ["new " + ty] + ["add " + it for it in items[:cut]] + ["extend_%s %s" % (how, " ".join(items[cut:])), "dump"]
+        return program, None, {"mode": "all-dumps-bit-equal", "probe": PROBE[:k], "weights": PROBE_W[:k] if pair else None}
+    return {"vars": [], "build": build}
 
 
 def check_estimate_headline(W, prop):
